@@ -528,8 +528,8 @@ def check_all_assign(ctx, rule, reader, st, call, table):
 def check(ctx):
     repo = ctx.repo
     pk = repo.cls('Packet')
-    eq = pk.methods.get('__eq__')
-    rp = pk.methods.get('__repr__')
+    eq = repo.method(pk, '__eq__')
+    rp = repo.method(pk, '__repr__')
     if eq is None:
         ctx.violation('R11-eq-shape', (pk.file, 'Packet'), 'Packet.__eq__', 'Packet defines no __eq__: equality is identity, not structural', pk.node.lineno)
         return
